@@ -78,13 +78,22 @@ def wrap_int(v, bits, signed):
     return v
 
 
+_ROUNDED = []   # z3 terms produced by round_f32 in this execution (identity-compared)
+
+
 def round_f32(v):
-    """value of ctypes.c_float(v).value"""
+    """value of ctypes.c_float(v).value.  Rounding to float32 is idempotent (lemma discharged by engine/validate_fp_lemma.py),
+    so a value that already is the result of round_f32 is returned as it is instead of nesting two conversions."""
     with NoTracing():
         if BL is not None and isinstance(v, BL.PreciseIeeeSymbolicFloat):
-            return BL.PreciseIeeeSymbolicFloat(
-                z3.fpToFP(z3.RNE(), z3.fpToFP(z3.RNE(), v.var, z3.Float32()), z3.Float64())
-            )
+            for t in _ROUNDED[-64:]:
+                if t is v.var:
+                    return v
+            r = z3.fpToFP(z3.RNE(), z3.fpToFP(z3.RNE(), v.var, z3.Float32()), z3.Float64())
+            _ROUNDED.append(r)
+            if len(_ROUNDED) > 256:
+                del _ROUNDED[:128]
+            return BL.PreciseIeeeSymbolicFloat(r)
     return ctypes.c_float(v).value
 
 
